@@ -42,6 +42,46 @@ type Solver struct {
 	dead     bool
 	axioms   []*Term
 	axiomSet map[int]bool
+	curTimeout int
+	TooLarge   int
+}
+
+// MaxNewTerms bounds the number of term nodes a single query may add to the solver.
+var MaxNewTerms = 40000
+
+// countNew counts term nodes reachable from ts that the solver has not been told about yet (stops above limit).
+func (s *Solver) countNew(ts []*Term, limit int) int {
+	seen := map[int]bool{}
+	n := 0
+	var stack []*Term
+	stack = append(stack, ts...)
+	for len(stack) > 0 && n <= limit {
+		t := stack[len(stack)-1]
+		stack = stack[:len(stack)-1]
+		if seen[t.ID] || (t.ID < len(s.defined) && s.defined[t.ID]) || t.Op == OpConst {
+			continue
+		}
+		seen[t.ID] = true
+		n++
+		stack = append(stack, t.Args...)
+	}
+	return n
+}
+
+// SetTimeout changes the per-query timeout of the running solver.
+func (s *Solver) SetTimeout(ms int) {
+	if ms <= 0 || ms == s.curTimeout {
+		return
+	}
+	s.curTimeout = ms
+	if s.dead {
+		return
+	}
+	if s.Kind == "cvc5" {
+		s.send(fmt.Sprintf("(set-option :tlimit-per %d)", ms))
+	} else {
+		s.send(fmt.Sprintf("(set-option :timeout %d)", ms))
+	}
 }
 
 // AddAxiom asserts t permanently (at the base level).
@@ -100,6 +140,7 @@ func (s *Solver) start() error {
 	s.declV = map[string]bool{}
 	s.declF = map[string]bool{}
 	s.dead = false
+	s.curTimeout = s.TimeoutMs
 	if s.Kind == "cvc5" {
 		s.send("(set-logic ALL)")
 		s.send(fmt.Sprintf("(set-option :tlimit-per %d)", s.TimeoutMs))
@@ -307,6 +348,27 @@ func (s *Solver) Check(asserts []*Term, want []*Term) (Result, map[int]uint64) {
 	defer func() { s.Time += time.Since(t0) }()
 	s.Queries++
 	nerr0 := len(s.Errors)
+	// size guard: a query that would send more than MaxNewTerms not yet defined term nodes is not attempted
+	// (whole-cipher disequalities over dozens of clocks: z3 does not come back and takes gigabytes)
+	if n := s.countNew(append(append([]*Term{}, asserts...), want...), MaxNewTerms); n > MaxNewTerms {
+		s.NUnknown++
+		s.Errors = append(s.Errors, fmt.Sprintf("query not attempted: more than %d new term nodes", MaxNewTerms))
+		s.Errors = s.Errors[:len(s.Errors)-1]
+		s.TooLarge++
+		return Unknown, nil
+	}
+	// watchdog over definition and solving: z3's own timeout is not always honoured
+	limit := s.curTimeout
+	if limit <= 0 {
+		limit = s.TimeoutMs
+	}
+	proc := s.cmd.Process
+	wd := time.AfterFunc(time.Duration(limit)*time.Millisecond+15*time.Second, func() {
+		if proc != nil {
+			proc.Kill()
+		}
+	})
+	defer wd.Stop()
 	for _, a := range asserts {
 		if a.IsConst() {
 			if a.Val == 0 {
